@@ -326,6 +326,8 @@ def _nanvar_func(a, correction=None, **kwargs):
 
 
 def _nanvar_combine(a, axis=None, correction=None, **kwargs):
+    if len(axis) == 0:  # zero-dimensional input, nothing to combine
+        return a
     # _var_combine is called by _partial_reduce which concatenates along the first axis
     axis = axis[0]
     if a["n"].shape[axis] == 1:  # nothing to combine
